@@ -27,6 +27,7 @@ type asaDev struct {
 	AOrder  []string
 	Bind    map[string]string // "in inside" -> ACL name
 	Routes  []string          // text after "route "
+	Routes6 []string          // text after "ipv6 route "
 }
 
 type svcGroup struct {
@@ -76,6 +77,7 @@ func (d *asaDev) clone() *asaDev {
 		c.Bind[k] = v
 	}
 	c.Routes = append([]string{}, d.Routes...)
+	c.Routes6 = append([]string{}, d.Routes6...)
 	for k, v := range d.Shut {
 		c.Shut[k] = v
 	}
@@ -127,6 +129,9 @@ func (d *asaDev) print(withIntf bool) string {
 	}
 	for _, r := range d.Routes {
 		fmt.Fprintf(&sb, "route %s\n", r)
+	}
+	for _, r := range d.Routes6 {
+		fmt.Fprintf(&sb, "ipv6 route %s\n", r)
 	}
 	for _, o := range d.Opaque {
 		sb.WriteString(o.Header + "\n")
@@ -414,8 +419,32 @@ func (e *executor) exec1(cmd string) error {
 		d.Bind[key] = name
 		return nil
 	}
+	if strings.HasPrefix(cmd, "ipv6 route ") || strings.HasPrefix(cmd, "no ipv6 route ") {
+		// ipv6 route IF PREFIX GW [metric]
+		no := strings.HasPrefix(cmd, "no ")
+		r := canonRoute(strings.TrimPrefix(strings.TrimPrefix(cmd, "no "), "ipv6 route "), 3)
+		f := strings.Fields(r)
+		if len(f) != 3 {
+			return fmt.Errorf("incomplete command: %s", cmd)
+		}
+		if no {
+			if !contains(d.Routes6, r) {
+				return fmt.Errorf("route does not exist: %s", r)
+			}
+			d.Routes6 = remove(d.Routes6, r)
+			return nil
+		}
+		for _, x := range d.Routes6 {
+			fx := strings.Fields(x)
+			if fx[0] == f[0] && fx[1] == f[1] {
+				return fmt.Errorf("route to identical destination exists: %s", x)
+			}
+		}
+		d.Routes6 = append(d.Routes6, r)
+		return nil
+	}
 	if strings.HasPrefix(cmd, "route ") {
-		r := strings.TrimPrefix(cmd, "route ")
+		r := canonRoute(strings.TrimPrefix(cmd, "route "), 4)
 		f := strings.Fields(r)
 		for _, x := range d.Routes {
 			fx := strings.Fields(x)
@@ -427,7 +456,7 @@ func (e *executor) exec1(cmd string) error {
 		return nil
 	}
 	if strings.HasPrefix(cmd, "no route ") {
-		r := strings.TrimPrefix(cmd, "no route ")
+		r := canonRoute(strings.TrimPrefix(cmd, "no route "), 4)
 		if !contains(d.Routes, r) {
 			return fmt.Errorf("route does not exist: %s", r)
 		}
@@ -491,7 +520,16 @@ func (d *asaDev) expand(body string) string {
 }
 
 // managedView is what the target specifies: per binding the expanded ACL, and the routes.
-func (d *asaDev) managedView(bindings []string, withRoutes bool) string {
+// canonRoute: a route without its trailing metric (a device shows `route IF IP MASK GW 1`); n = words without metric
+func canonRoute(r string, n int) string {
+	f := strings.Fields(r)
+	if len(f) == n+1 {
+		f = f[:n]
+	}
+	return strings.Join(f, " ")
+}
+
+func (d *asaDev) managedView(bindings []string, withRoutes, withRoutes6 bool) string {
 	var sb strings.Builder
 	for _, k := range bindings {
 		fmt.Fprintf(&sb, "[%s]\n", k)
@@ -503,6 +541,11 @@ func (d *asaDev) managedView(bindings []string, withRoutes bool) string {
 		r := append([]string{}, d.Routes...)
 		sort.Strings(r)
 		sb.WriteString("[routes]\n " + strings.Join(r, "\n ") + "\n")
+	}
+	if withRoutes6 {
+		r := append([]string{}, d.Routes6...)
+		sort.Strings(r)
+		sb.WriteString("[ipv6 routes]\n " + strings.Join(r, "\n ") + "\n")
 	}
 	return sb.String()
 }
